@@ -3,6 +3,18 @@
 import json
 TX_NOTE = "Trusted: SimNet (stream-level model of one QUIC connection, semantics in DESIGN.md 2.4) instead of quic-go; the app shell around the engines is a stub (sender closes with code 0 on return, receiver exits without closing); the go/ast yield generator; testing/synctest; one fake clock for both nodes."
 checks = {
+ "C04": dict(level="fault_enumeration", design="3/C04",
+   text="Histories of 1-3 interrupted runs (receiver process killed at a crash point = any file-system or network operation of that process, optionally tearing the write in flight; sender killed; abrupt loss; close; cancel) followed by a healthy resumed run into the same directory, all under seeded schedules in the simulator. Oracle: the resumed run succeeds on both sides, the tree is identical to the source, and the first FileResumeInfo per file advertises at least the chunks marked in the sidecar found after the kill. Kill positions are drawn per history; the thorough tier additionally kills the receiver at every file-system crash point of selected schedules.",
+   note=TX_NOTE + " Crash model: kill -9 of one process (memory lost, completed system calls durable, a write in flight may be torn, rename atomic); no power-loss reordering, since the code never syncs and the property speaks of killed processes.",
+   technique="deterministic simulation with crash injection at enumerated crash points, crash images = the interposed scratch directory, then resumed run"),
+ "C05": dict(level="fault_enumeration", design="3/C05",
+   text="Same interrupted runs as C04; the oracle is evaluated on every crash image before any recovery: every sidecar the repository's LoadSidecar accepts and whose identity matches a manifest file may mark only chunks whose bytes in the partially written output file equal the source, and every sidecar path must hold exactly the version installed by the last completed rename/write (atomic replacement). Schedules are biased to let the 1 s flusher tick fall between the steps of the data-stream readers.",
+   note=TX_NOTE + " Crash model as for C04. Torn writes are cut at a drawn per-mille position of the write.",
+   technique="deterministic simulation with crash injection; invariant over the crash image"),
+ "C06": dict(level="exploration", design="3/C06",
+   text="Prior states are produced by real interrupted runs (as in C04) and then damaged: sidecar truncated at a drawn length, one bit flipped, garbage, a well-formed all-complete sidecar of another size / chunk size / id, .tmp leftover, data file deleted or shortened with the sidecar present, highest marked chunk torn. A healthy resumed run must end with an identical tree or with a failure on at least one side. Damage to chunks other than the highest marked one is not generated (the property promises detection only there).",
+   note=TX_NOTE + " One genuine defect is listed as a known finding (repair chunk for a torn highest chunk is not applied); its signature names the mechanism, other outcomes of the same damage are still reported.",
+   technique="deterministic simulation: histories of crashed runs plus storage-damage faults between runs, end-state oracle"),
  "C02": dict(level="fault_enumeration", design="3/C02",
    text="Every run executes one seeded workload/configuration/schedule fault-free to learn its delivery sequence and then re-executes it with 1-2 injected faults (graceful close with code 0 by either side, abrupt loss, cancellation of sender or receiver, bit flip in chunk payload or checksum, source file shrunk or removed after the scan, obstructed output path, failing receiver file operation). Connection faults are anchored to delivery indices of that execution; the thorough tier additionally places a fault at every delivery index of selected executions. Oracle per side: error, or success with an identical complete tree (receiver) / with FileDone{ok} written by the receiver for every file (sender); both sides must have returned within the simulated bound. Fault kinds and positions are enumerated per schedule; schedules and workloads are sampled.",
    note=TX_NOTE + " Bit flips stand for corruption below the chunk CRC (QUIC authenticates packets). A fault takes effect at segment granularity, segments being cut at seeded positions down to single bytes.",
